@@ -98,6 +98,7 @@ RANGE_EDGE = ['9.5-30', '5-10.5']    # minsma within one step below sma0; maxsma
 RANGE_LARGE = '25-50'                # frame 'large' (sma0 = 30): sma 27.3, 30, 33, 36.3, 39.9, 43.9, 48.3 with step 0.1
 SIZE = [1.0, 1.5, 2.5]               # multiplies the scale length of the radial law
 AREA_MODE = ['mean', 'median']
+AREA_GROWTH = ['geom0.1', 'lin3.0']  # linear growth needs an annulus >= 3 px wide for sectors of > 6 pixels (lin1.0: ~1 px)
 AREA_EPS = [0.2, 0.5, 0.05]          # eps 0.8: fewer than half of the sectors hold > 6 pixels up to sma 50 (sector_fraction)
 FIXVIA = ['kwargs', 'geometry']      # fix_* given to fit_image(), or to the EllipseGeometry constructor
 
@@ -115,8 +116,8 @@ BLOCKS = {
         ('range-edge', {'eps': [0.2, 0.8], 'growth': GROWTH, 'range': RANGE_EDGE}, {}),
         ('law', {'eps': [0.2, 0.8], 'pa_deg': [60, 150], 'law': LAW, 'cen': CEN}, {'range': 'default'}),
         # isophotes that really use the area integrators: 6 per fit (sma 30 ... 48.3) at eps 0.2, 4 at eps 0.5
-        ('area', {'eps': [0.2, 0.5], 'pa_deg': [30, 120], 'cen': ['int', 'frac'], 'mode': AREA_MODE, 'size': [1.0, 2.5]},
-         {'frame': 'large', 'range': RANGE_LARGE}),
+        ('area', {'eps': [0.2, 0.5], 'pa_deg': [30, 120], 'cen': ['int', 'frac'], 'mode': AREA_MODE, 'growth': AREA_GROWTH,
+                  'size': [1.0, 2.5]}, {'frame': 'large', 'range': RANGE_LARGE}),
     ],
     'thorough': [
         ('geometry', {'eps': EPS, 'pa_deg': PA_DEG, 'cen': CEN, 'law': LAW, 'init': ['truth', 'shape', 'centre']},
@@ -128,8 +129,8 @@ BLOCKS = {
         ('size', {'eps': EPS, 'pa_deg': PA_DEG, 'law': LAW, 'size': [1.5]}, {'range': 'default'}),
         ('range-edge', {'eps': [0.2, 0.8], 'growth': GROWTH, 'range': RANGE_EDGE}, {}),
         ('law', {'eps': [0.2, 0.8], 'pa_deg': [60, 150], 'law': LAW, 'cen': CEN}, {'range': 'default'}),
-        ('area', {'eps': AREA_EPS, 'pa_deg': PA_DEG, 'cen': ['int', 'frac'], 'mode': AREA_MODE, 'size': [1.0, 2.5],
-                  'init': ['shape', 'centre']}, {'frame': 'large', 'range': RANGE_LARGE}),
+        ('area', {'eps': AREA_EPS, 'pa_deg': PA_DEG, 'cen': ['int', 'frac'], 'mode': AREA_MODE, 'growth': AREA_GROWTH,
+                  'size': [1.0, 2.5], 'init': ['shape', 'centre']}, {'frame': 'large', 'range': RANGE_LARGE}),
     ],
 }
 
@@ -219,10 +220,11 @@ def initial_geometry(case, t):
 
 def fit_kwargs(case):
     kw = {'integrmode': case['mode']}
-    if case['growth'] == 'geom0.1':
-        kw.update(step=0.1, linear=False)
+    g = case['growth']                  # 'geom<step>' or 'lin<step>'
+    if g.startswith('geom'):
+        kw.update(step=float(g[4:]), linear=False)
     else:
-        kw.update(step=1.0, linear=True)
+        kw.update(step=float(g[3:]), linear=True)
     if case['range'] != 'default':
         mn, mx = case['range'].split('-')
         kw.update(minsma=float(mn), maxsma=float(mx))
@@ -310,9 +312,10 @@ def half_widths(sma, eps, pa):
 def outer_sma(sma, case):
     """Outer edge of the integration annulus of the isophote at ``sma`` and of
     the gradient annulus (documented: astep relative / absolute)."""
-    if case['growth'] == 'geom0.1':
-        return sma * 1.1 * 1.05
-    return (sma + 1.0) + 0.5
+    kw = fit_kwargs(case)
+    if not kw['linear']:
+        return sma * (1.0 + kw['step']) * (1.0 + kw['step'] / 2.0)
+    return (sma + kw['step']) + kw['step'] / 2.0
 
 
 def well_sampled(sma, case, t):
